@@ -12,7 +12,8 @@
       RUseItems s    `use l.p.all` (node id of p is s) becomes `use l.p.x` for every name x declared in package p
    R4 RWrap s lbl    concurrent statement s is wrapped into `lbl : block begin ... end block`
    R5 RAddDecl s x k an unused declaration of the fresh identifier x is inserted after the declaration named at s
-                     (architecture, block and package-body declarative parts)
+                     (architecture, block and package-body declarative parts; x occurs nowhere in the program and is
+                     not a predefined literal; the variant that mentions `true` needs `true` not to be redeclared)
 
    R2, R3 (RSelected) and R4 are phrase replacements (Mini/Walk.v): `applicable` = the new phrase is accepted by the
    reference in the environment recorded for the ORIGINAL phrase (+ label freshness for R4); that the whole
@@ -374,12 +375,18 @@ Definition apply_rewrite (r : rewrite) (p : program) : program :=
          end
   end.
 
+(* identifier z is nowhere declared in p *)
+Definition never_declared_b (z : ident) (p : program) : bool :=
+  negb (existsb (fun t => match snd (fst t) with OOther => snd t =? z | _ => false end) (occs_program p)).
 Definition applicable (r : rewrite) (p : program) : bool :=
   nodup_nids p &&
   match r with
   | RSwap s => exists_unit (fun u => swap_ok_ubody s (u_body u)) p
   | RUseItems s => valid_b (apply_rewrite r p)
-  | RAddDecl s x k => negb (memb x (idents_program p)) && negb (x =? id_undeclared) && memb s (add_sites p)
+  | RAddDecl s x k =>
+      negb (memb x (idents_program p)) && negb (x =? id_undeclared) && memb s (add_sites p) &&
+      (* the new name is not a predefined literal, and `true` (used by the boolean variant) has its predefined meaning *)
+      (negb (x =? id_true) && negb (x =? id_false) && ((k =? 0) || (k =? 2) || never_declared_b id_true p))
   | _ => match rewrite_phrase r p with Some _ => true | None => false end
   end.
 
